@@ -66,4 +66,26 @@ def disjointNew (cs : List Shape) : Shape :=
       .disjoint (sortBy compLt ((a :: b :: t).map Shape.compOf))
     else .empty                                                            -- AssertionError
 
+/-- the statements of `DisjointShape.__new__` in the order the source executes them (regenerated: `Gen.disjointNewSteps`) -/
+inductive NewStep
+  /-- `while EmptyShape() in subshapes: subshapes.remove(EmptyShape())` (or a filtering comprehension) -/
+  | removeEmpty
+  /-- `if len(subshapes) == 0: return EmptyShape()` -/
+  | zeroIsEmpty
+  /-- `if len(subshapes) == 1: return copy(subshapes[0])` -/
+  | oneIsCopy
+  /-- `instance = super().__new__(cls); instance.subshapes = subshapes; return instance` -/
+  | build
+deriving DecidableEq, Repr
+
+/-- run the statements on a list of operands; `none` = the constructor falls off its end -/
+def runNewSteps : List NewStep → List Shape → Option Shape
+  | [], _ => none
+  | .removeEmpty :: rest, l => runNewSteps rest (l.filter fun s => !s.isEmptyS)
+  | .zeroIsEmpty :: rest, l => if l.isEmpty then some .empty else runNewSteps rest l
+  | .oneIsCopy :: rest, l => match l with
+    | [s] => some s
+    | _ => runNewSteps rest l
+  | .build :: _, l => some (.disjoint (sortBy compLt (l.map Shape.compOf)))
+
 end ShapeVerif
